@@ -170,6 +170,55 @@ std::string gen_sparse_fen(Rng& r, int extra_min, int extra_max, bool allow_pawn
     return "8/8/4k3/8/8/3K4/R7/8 w - - 0 1";
 }
 
+// lone (or nearly lone) king against everything a side can own after eight promotions
+std::string gen_heavy_fen(Rng& r)
+{
+    for (int attempt = 0; attempt < 200; ++attempt)
+    {
+        ref::Board b;
+        std::memset(b.sq, 0, sizeof b.sq);
+        b.castling = 0;
+        b.ep = -1;
+        b.side = int(r.below(2));
+        b.halfmove = int(r.below(30));
+        b.fullmove = int(r.range(40, 120));
+        int strong = int(r.below(2));
+        int promoted = int(r.range(3, 8));
+        int q = 1, rk = 2, bi = 2, kn = 2;
+        for (int i = 0; i < promoted; ++i)
+        {
+            uint64_t k = r.below(10);
+            if (k < 7) q++;
+            else if (k < 8) rk++;
+            else if (k < 9) bi++;
+            else kn++;
+        }
+        // sometimes some of the original officers are gone
+        if (r.chance(0.3)) rk -= int(r.below(3));
+        if (r.chance(0.3)) bi -= int(r.below(3));
+        if (r.chance(0.3)) kn -= int(r.below(3));
+        auto place = [&](int8_t pc) {
+            for (int t = 0; t < 100; ++t)
+            {
+                int s = int(r.below(64));
+                if (!b.sq[s]) { b.sq[s] = pc; return; }
+            }
+        };
+        place(ref::mk(strong, ref::KIND_K));
+        place(ref::mk(1 - strong, ref::KIND_K));
+        for (int i = 0; i < q; ++i) place(ref::mk(strong, ref::KIND_Q));
+        for (int i = 0; i < rk; ++i) place(ref::mk(strong, ref::KIND_R));
+        for (int i = 0; i < bi; ++i) place(ref::mk(strong, ref::KIND_B));
+        for (int i = 0; i < kn; ++i) place(ref::mk(strong, ref::KIND_N));
+        if (r.chance(0.25)) place(ref::mk(1 - strong, int(r.range(ref::KIND_N, ref::KIND_Q))));
+        std::string fen = b.fen();
+        if (!fen_is_sane(fen)) continue;
+        if (b.legal().empty()) continue;
+        return fen;
+    }
+    return "k7/8/8/8/7K/8/2QQQ3/1QQQQQQ1 w - - 0 1";
+}
+
 void playout(ref::Game& g, Rng& r, int plies, double bias, bool avoid_terminal)
 {
     for (int i = 0; i < plies; ++i)
